@@ -118,6 +118,7 @@ type harness struct {
 	sc      *Scenario
 	m       *connection.Manager
 	addrIdx map[string]int
+	names   []string // spelling of address i
 	// guarded by mu
 	invs   []*invocation
 	parks  []*park // arrival order
@@ -193,9 +194,11 @@ func (h *harness) dial(ctx context.Context, target string, opts ...grpc.DialOpti
 		case ok := <-inv.ch:
 			if ok {
 				// idle client: no network, state IDLE until Close makes it SHUTDOWN
-				cc, err = grpc.NewClient("passthrough:///"+target, opts...)
+				// (the target string of the idle client is a harness constant: the
+				// spelling of the address is never parsed by gRPC)
+				cc, err = grpc.NewClient("passthrough:///c16", opts...)
 			} else {
-				err = fmt.Errorf("scripted failure of dial #%d to %s", inv.id, target)
+				err = fmt.Errorf("scripted failure of dial #%d to %q", inv.id, target)
 			}
 		}
 	}
@@ -473,10 +476,10 @@ func (h *harness) doAcq(s int, st Step) (string, *verr) {
 	}
 	h.mu.Lock()
 	if st.G {
-		h.armed[pointWait+"|"+addrName(ai)] = true
+		h.armed[pointWait+"|"+h.names[ai]] = true
 	}
 	if st.D {
-		h.armed[pointDialResult+"|"+addrName(ai)] = true
+		h.armed[pointDialResult+"|"+h.names[ai]] = true
 	}
 	h.curReq = r
 	h.auto = st.F
@@ -491,14 +494,14 @@ func (h *harness) doAcq(s int, st Step) (string, *verr) {
 				h.mu.Unlock()
 			}
 		}()
-		conn, done, err := h.m.Connection(ctx, addrName(ai), dialer)
+		conn, done, err := h.m.Connection(ctx, h.names[ai], dialer)
 		h.mu.Lock()
 		r.conn, r.done, r.err, r.returned = conn, done, err, true
 		h.mu.Unlock()
 	}()
 	synctest.Wait()
 	h.mu.Lock()
-	delete(h.armed, pointWait+"|"+addrName(ai))
+	delete(h.armed, pointWait+"|"+h.names[ai])
 	h.curReq = nil
 	h.auto = 0
 	newInvs := append([]*invocation(nil), h.invs[invBefore:]...)
@@ -623,7 +626,7 @@ func (h *harness) doFin(s int, st Step) (string, *verr) {
 	if st.G {
 		desc += ", gate " + pointDialResult + " armed"
 		h.mu.Lock()
-		h.armed[pointDialResult+"|"+addrName(t.ai)] = true
+		h.armed[pointDialResult+"|"+h.names[t.ai]] = true
 		h.mu.Unlock()
 	}
 	t.inv.ch <- st.OK
@@ -741,7 +744,7 @@ func (h *harness) doCancel(s int, st Step) (string, *verr) {
 	h.mu.Lock()
 	origin := t != nil && t.state == attInflight && t.inv != nil && !t.inv.returned && t.members[0] == r
 	if origin && st.G {
-		h.armed[pointDialResult+"|"+addrName(r.ai)] = true
+		h.armed[pointDialResult+"|"+h.names[r.ai]] = true
 		desc += ", gate " + pointDialResult + " armed"
 	}
 	h.mu.Unlock()
@@ -1118,8 +1121,18 @@ func runBubble(sc *Scenario) (stats, *verr) {
 		return stats{}, newVerr("harness-error", "scenario out of range: %d addresses, %d threads", sc.Addrs, sc.Threads)
 	}
 	h := &harness{sc: sc, addrIdx: map[string]int{}, armed: map[string]bool{}, cur: make([]*attempt, sc.Addrs), lastEnd: make([]string, sc.Addrs)}
+	var distinct bool
+	if h.names, distinct = addrTable(sc.Names, sc.Addrs); !distinct {
+		return stats{}, newVerr("harness-error", "the address spellings of the scenario are not pairwise different after case folding: this part decides nothing about such spellings")
+	}
 	for i := 0; i < sc.Addrs; i++ {
-		h.addrIdx[addrName(i)] = i
+		h.addrIdx[h.names[i]] = i
+	}
+	if len(sc.Names) > 0 {
+		h.log = append(h.log, describeTable(h.names))
+	}
+	for _, l := range nameLabels(h.names, len(sc.Names) > 0) {
+		h.label(l)
 	}
 	m, err := connection.NewManagerCustom(map[string]connection.Dial{connection.DEFAULT: h.dial}, grpc.WithTransportCredentials(insecure.NewCredentials()))
 	if err != nil {
